@@ -14,7 +14,7 @@ CHECKS = {
     "C02": {
         "script": "c02.py", "category": "model_checking",
         "technique": "stateless model checking of the real broker code under a controlled scheduler (exhaustive DFS over schedules with DPOR + sleep sets, virtual time)",
-        "text": U + " of the real IPC/HTTP/AMP handlers, Broker() and timers for <=2-3 proxies x <=2 clients x answer behaviours x entry points {IPC, POST, legacy POST, AMP GET} x fingerprints {none, default, second bridge, absent}; oracle on every execution: answers routed to the client whose offer the answering poll received, each offer in <=1 poll, relay URL of the named bridge, absent bridge never matched.",
+        "text": U + " of the real IPC/HTTP/AMP handlers, Broker() and timers for <=2-3 proxies x <=2 clients x answer behaviours x entry points {IPC, POST, legacy POST, AMP GET} x fingerprints {none, default, second bridge, absent, listed + junk}; oracle on every execution: answers routed to the client whose offer the answering poll received, each offer in <=1 poll, relay URL of the named bridge, absent bridge never matched.",
         "design_ref": "§3 C02", "note": SCHED_NOTE,
     },
     "C03": {
@@ -55,7 +55,7 @@ CHECKS["C12"] = {
 CHECKS["C17"] = {
     "script": "c17.py", "category": "model_checking",
     "technique": "stateless model checking of the real turbotunnel adapters under a controlled scheduler (exhaustive DFS over schedules with DPOR + sleep sets, virtual time) with scripted carriers",
-    "text": U + " of RedialPacketConn with 1-3 scripted carriers x failure scripts {none, read, write, both, late write} x dial end {error, block} x close instants (no error before Close/dial failure, at most one carrier active, every carrier closed, no goroutine of the package alive after Close, packets unmodified and in order despite buffer scribbling); QueuePacketConn: all operation sequences <=5(6) against a FIFO reference, overflow run, concurrent feeders/reader/writer/closer, 2-3 concurrent producers meeting a queue with 0-2 free slots (len(ch) is a scheduling point); ClientMap with its real sweeper on virtual time (first seen at 5 instants x refreshed after {never, 2 ns, 0.5 s, 0.999 s, T/4, T/2, T/2+1, T-1}: retention until T-1ns after the last sighting, discarded and closed by 1.5T); clientMapInner with explicit clock (steps T/8, T/2, T-1ns, T): breadth-first to a fixpoint with heap/index invariants and exact last-seen times.",
+    "text": U + " of RedialPacketConn with 1-3 scripted carriers x failure scripts {none, read, write, both, late write} x dial end {error, block} x close instants (no error before Close/dial failure, at most one carrier active, every carrier closed, no goroutine of the package alive after Close, packets unmodified and in order despite buffer scribbling); QueuePacketConn: all operation sequences <=5(6) against a FIFO reference, overflow run, concurrent feeders/reader/writer/closer, 2-3 concurrent producers meeting a queue with 0-2 free slots (len(ch) is a scheduling point), a client written to all the time for four timeouts under the real sweeper; ClientMap with its real sweeper on virtual time (first seen at 5 instants x refreshed after {never, 2 ns, 0.5 s, 0.999 s, T/4, T/2, T/2+1, T-1}: retention until T-1ns after the last sighting, discarded and closed by 1.5T); clientMapInner with explicit clock (steps T/8, T/2, T-1ns, T): breadth-first to a fixpoint with heap/index invariants and exact last-seen times.",
     "design_ref": "§3 C17", "note": SCHED_NOTE,
 }
 CHECKS["C01"] = {
@@ -67,7 +67,7 @@ CHECKS["C01"] = {
 CHECKS["C05"] = {
     "script": "c05.py", "category": "model_checking",
     "technique": "tier 1: stateless model checking of the real turbotunnelMode + QueuePacketConn + ClientMap + clientIDAddrMap under a controlled scheduler (DPOR + sleep sets, virtual time) with in-memory carriers and a KCP stand-in; tier 2: sequential enumeration of token variants and carrier schedules against the real listener (Transport.Listen, ServeHTTP, kcp-go, smux) over loopback WebSockets",
-    "text": U + " for 1 session x 10 carrier schedules (cut at every byte class + reconnect, overlapping carriers, idle gaps 30/59/61/95 s with a packet written during the gap) and for 2-3 concurrent sessions; oracle: every packet from ReadFrom was framed on a carrier that presented that ClientID (byte-identical, exactly once, none lost), downstream packets leave only through carriers of their session in FIFO order and survive gaps below the retention time, carrier handlers and their goroutines end, the address looked up at accept time is that of the most recent carrier of that ClientID and never another session's. Cuts surface as EOF or as a non-EOF error. Tier 2: 75 carriers without the token (64 bit flips, prefixes, ...) each followed by a full client stack: carrier ended, no connection produced; 96 scenarios of 1-3 concurrent real sessions over 8 carrier schedules x payload sizes and bursts of 8 simultaneous sessions: exactly one accepted connection per session, exact bytes both ways, right client address; a session whose ClientID the (capacity-2) address map has forgotten is given no address.",
+    "text": U + " for 1 session x 10 carrier schedules (cut at every byte class + reconnect, overlapping carriers, idle gaps 30/59/61/95 s with a packet written during the gap) and for 2-3 concurrent sessions; oracle: every packet from ReadFrom was framed on a carrier that presented that ClientID (byte-identical, exactly once, none lost), downstream packets leave only through carriers of their session in FIFO order and survive gaps below the retention time, carrier handlers and their goroutines end, the address looked up at accept time is that of the most recent carrier of that ClientID and never another session's. Cuts surface as EOF or as a non-EOF error. Tier 2: 75 carriers without the token (64 bit flips, prefixes, ...) each followed by a full client stack: carrier ended, no connection produced; 96 scenarios of 1-3 concurrent real sessions over 8 carrier schedules x payload sizes and bursts of 8 simultaneous sessions: exactly one accepted connection per session, exact bytes both ways, right client address; a session whose ClientID the (capacity-2) address map has forgotten is given no address; a session idle until 27.5 s and then without a carrier for 36 s (a whole keep-alive window inside the retention time) continues as the same connection.",
     "design_ref": "§3 C05", "note": SCHED_NOTE + " Tier 2 runs in real time: its oracles compare bytes and counts, missing progress is believed only after 4 runs, loopback trouble marks the run incomplete; the 30-95 s gaps exist only in tier 1 (virtual time).",
 }
 CHECKS["C06"] = {
@@ -103,7 +103,7 @@ CHECKS["C14"] = {
 CHECKS["C15"] = {
     "script": "c15.py", "category": "model_checking",
     "technique": "stateless model checking of the real Peers/connectLoop/WebRTCPeer.Close under a controlled scheduler (DPOR + sleep sets, virtual time) + enumeration of constructor failure kinds with real pion",
-    "text": U + " of connectLoop, a popping data path, peers closing on their own and one or two End callers for max in {1,2(,3)} x scripted Catch outcomes {now, 3 s, error, error after 3 s}; oracle: live peers <= max, Pop never returns a peer whose Close completed before the call, every End returns and never panics, no Catch begins after End returned, no Catch begins once an earlier one has ended after the stop, a rendezvous begins within ReconnectTimeout after the peers went away on their own, connectLoop stops, all peers closed. Plus NewWebRTCPeerWithEvents (real pion) over 6 ICE configurations x 20 rendezvous failures with a listener that renders every event like the client program's and SnowflakeConn.Close once/twice/three times/concurrently x {healthy, session dead, stream closed, packet conn closed, collection ended} on a real KCP+smux session with postconditions (collection stopped, no peer held, session and packet conn closed); a broker that accepts the connection and never answers (every rendezvous variant): Negotiate gives up within 60 s.",
+    "text": U + " of connectLoop, a popping data path, peers closing on their own and one or two End callers for max in {1,2(,3)} x scripted Catch outcomes {now, 3 s, error, error after 3 s}; oracle: live peers <= max, Pop never returns a peer whose Close completed before the call, every End returns and never panics, no Catch begins after End returned, no Catch begins once an earlier one has ended after the stop, a rendezvous begins within ReconnectTimeout after the peers went away on their own, connectLoop stops, all peers closed. Plus NewWebRTCPeerWithEvents (real pion) over 6 ICE configurations x 20 rendezvous failures with a listener that renders every event like the client program's, the NAT-type probe (updateNATType) on 10 ICE lists incl. blank entries and SnowflakeConn.Close once/twice/three times/concurrently x {healthy, session dead, stream closed, packet conn closed, collection ended} on a real KCP+smux session with postconditions (collection stopped, no peer held, session and packet conn closed); a broker that accepts the connection and never answers (every rendezvous variant): Negotiate gives up within 60 s.",
     "design_ref": "§3 C15", "note": SCHED_NOTE + " Peers in the scheduled harness carry no pion objects (as in the repository's own tests); process exit status is not decided.",
 }
 CHECKS["C19"] = {
